@@ -834,31 +834,55 @@ func (c *c47Ctx) familyPolicy(set *c47Set) {
 		idx     []int
 		weights []int
 	}
+	// option lists: every ordered selection of 1..3 (thorough 4) distinct option filters x weight vectors. The weight vectors
+	// cover every shape of weight levels (all equal; one heavy + several equal lighter ones; several equal heavy + a lighter
+	// one; all different) - and, since the option filters include one that keeps nothing and the selections are ordered,
+	// "the heaviest level keeps nothing / something" and every position of an option inside its level.
 	optSpecs := []optSpec{{}}
-	for i := range opts {
-		optSpecs = append(optSpecs, optSpec{[]int{i}, []int{0}})
-		for j := range opts {
-			if i == j {
-				continue
+	var rec func(cur []int, n int, emit func([]int))
+	rec = func(cur []int, n int, emit func([]int)) {
+		if len(cur) == n {
+			emit(append([]int(nil), cur...))
+			return
+		}
+		for i := range opts {
+			dup := false
+			for _, c := range cur {
+				dup = dup || c == i
 			}
-			for _, w := range [][]int{{1, 1}, {2, 1}, {1, 2}} {
-				optSpecs = append(optSpecs, optSpec{[]int{i, j}, w})
+			if !dup {
+				rec(append(cur, i), n, emit)
 			}
 		}
 	}
+	vectors := map[int][][]int{
+		1: {{0}},
+		2: {{1, 1}, {2, 1}, {1, 2}},
+		3: {{1, 1, 1}, {2, 1, 1}, {2, 2, 1}, {3, 2, 1}},
+		4: {{2, 1, 1, 1}, {2, 2, 1, 1}, {3, 2, 2, 1}, {3, 1, 1, 1}},
+	}
 	if mc.Thorough() {
-		for _, w := range [][]int{{3, 2, 1}, {1, 2, 3}, {2, 2, 1}, {1, 2, 2}, {1, 1, 1}} {
-			for i := range opts {
-				for j := range opts {
-					for k := range opts {
-						if i != j && j != k && i != k {
-							optSpecs = append(optSpecs, optSpec{[]int{i, j, k}, w})
-						}
-					}
+		vectors[3] = nil
+		for a := 1; a <= 3; a++ {
+			for b := 1; b <= 3; b++ {
+				for cc := 1; cc <= 3; cc++ {
+					vectors[3] = append(vectors[3], []int{a, b, cc})
 				}
 			}
 		}
+		vectors[3] = append(vectors[3], []int{0, -1, -1}, []int{-1, 0, -1})
 	}
+	maxOpts := mc.Pick(3, 4)
+	for n := 1; n <= maxOpts; n++ {
+		rec(nil, n, func(idx []int) {
+			for _, w := range vectors[n] {
+				optSpecs = append(optSpecs, optSpec{idx, w})
+			}
+		})
+	}
+	// lists of >= 3 options are combined with a subset of the top filters (none, an ACL, a sequence, ACL+sequence with
+	// interface predicates); thorough: 3 options with all top filters
+	manyOptTops := map[int]bool{0: true, 1: true, 6: true, len(tops) - 1: true}
 	orders := c47Orders(set)
 	hopsOf := func(order []int) [][]c47Hop {
 		out := make([][]c47Hop, len(order))
@@ -874,6 +898,9 @@ func (c *c47Ctx) familyPolicy(set *c47Set) {
 	var jobs []job
 	for ti := range tops {
 		for _, os := range optSpecs {
+			if len(os.idx) >= mc.Pick(3, 4) && !manyOptTops[ti] {
+				continue
+			}
 			jobs = append(jobs, job{ti, os})
 		}
 	}
@@ -925,8 +952,11 @@ func TestC47(t *testing.T) {
 		"0,2,3 hops (thorough: 4 hops for <= 5 nodes) over 3 ISD-ASes x interfaces {1,2}. ACL: all lists of <= 2 (3) entries over 7 " +
 		"interface-free predicates x {+,-} + default, and over 16 predicates of every form (ISD, ISD-AS, #if, #in,0, #0,out, #in,out, " +
 		"#0, #0,0, alternative AS spelling) x {+,-} + default; hop predicate text: every predicate of the H alphabet through " +
-		"HopPredicateFromString/String, JSON and ACLEntry text; policies: 11 top filters x option lists (<= 2, thorough 3 options, all " +
-		"weight orders) over 7 option filters, ACLs with interface predicates included; each on two input orders (forward; reversed+forward " +
+		"HopPredicateFromString/String, JSON and ACLEntry text; policies: 11 top filters x every ordered list of <= 2 distinct " +
+		"option filters out of 7 (one keeps nothing; ACLs with interface predicates included) x weight vectors, and 4 top filters x every " +
+		"ordered list of 3 options x weight-level shapes {all equal, heavy + 2 equal lighter, 2 equal heavy + lighter, all different} " +
+		"(thorough: 11 top filters x all 27 weight vectors over {1,2,3} + zero/negative weights, and 4 top filters x 4 options x 4 " +
+		"shapes), judged by the documented option semantics (heaviest weight level that keeps any path, union within the level); each on two input orders (forward; reversed+forward " +
 		"with every path twice). A case = (expression or filter, input path); non-trivial = path kept by reference or implementation, " +
 		"or some hop of it matched by some predicate of the expression"
 	r.Assumptions = []string{
